@@ -84,6 +84,8 @@ class C09(conncheck.ConnCheck):
         for sel in ('poll', 'select', 'kqueue'):
             out.append({'name': 'selector/' + sel, 'server': SERVER, 'handshake': ['hs-ok'], 'app': [], 'depth': d, 'faults': 1, 'cuts': False,
                         'strict': False, 'max_dev': 1, 'selector': sel})
+        out.append({'name': 'connect-phase-tls', 'server': ['eof', 'text'], 'handshake': ['hs-ok'], 'app': [], 'depth': 1, 'faults': 2, 'cuts': False,
+                    'strict': False, 'max_dev': 2, 'only_ops': ['getaddrinfo', 'socket', 'connect', 'sendall'], 'url': 'wss://example.com/x'})
         out.append({'name': 'connect-phase', 'server': ['eof', 'text'], 'handshake': ['hs-ok'], 'app': [], 'depth': 1, 'faults': 3, 'cuts': False,
                     'strict': False, 'max_dev': 3, 'only_ops': ['getaddrinfo', 'socket', 'connect', 'sendall']})
         out.append({'name': 'pings', 'server': ['eof', 'ping', 'ping-ping', 'silence'], 'handshake': ['hs-ok'], 'app': [], 'depth': d + 1, 'faults': nf,
@@ -139,11 +141,14 @@ class C09(conncheck.ConnCheck):
         if run.truncated:
             return
         connmodel.finish(model, run)
-        # finish() uses "closed"; C09 uses the released() definition
+        # "the socket is closed": close() must have been called on every descriptor the attempt created. Only when the injected
+        # fault was an arbitrary non-socket exception (which is not a transport failure) is a descriptor that has merely become
+        # unreachable accepted as released.
         model.problems = [(k, m) for k, m in model.problems if k != 'socket-open']
-        if run.finished and not all(c.released() for c in world.conns):
-            model.problems.append(('socket-leak', 'socket neither closed nor unreachable after the iterator ended (faults %s, events %s)'
-                                   % (model.injected, model.seen_names)))
+        arbitrary = any(kind == 'valueerror' for _, kind in model.injected)
+        if run.finished and not all((c.released() if arbitrary else c.closed) for c in world.conns):
+            model.problems.append(('socket-leak', 'close() was not called on socket(s) #%s although the iterator has ended (faults %s, events %s)'
+                                   % ([c.idx for c in world.conns if not c.closed], model.injected, model.seen_names)))
         names = model.seen_names
         pre = [f for f in model.injected if f[0] in ('getaddrinfo', 'socket', 'connect')]
         if 'connected' not in names and names and names[-1] != 'connect_fail' and run.finished:
